@@ -550,11 +550,11 @@ def run(ctx: Ctx):
                 ctx.violate(f"raises:{p.split(':')[0]}", f"corpus file makes {c['parser']} raise {p}", c)
             elif a in ("RAISES", "bad-op") or diff_columns(model_columns(a), impl_columns(p)):
                 ctx.disagree(f"{c['parser']} (corpus {fcase.name})", c, a[:200], "")
-        float_cases(ctx, drv, rng, ctx.budget(400, 20000))
-        for _ in range(ctx.budget(90, 4000)):
+        float_cases(ctx, drv, rng, ctx.budget(1500, 20000))
+        for _ in range(ctx.budget(400, 4000)):
             one_file(ctx, impl, drv, gen_file3(rng, quick), "rinex3_nav")
         for parser in ("rinex2_nav", "rinex212_nav"):
-            for _ in range(ctx.budget(30, 1200)):
+            for _ in range(ctx.budget(120, 1200)):
                 one_file(ctx, impl, drv, gen_file2(rng, quick, parser), parser)
         dispatch_cases(ctx, impl, rng)
     finally:
